@@ -221,6 +221,16 @@ def run_contract(c: Contract, kwargs: dict) -> Outcome:
         cls = c.objects.get(len(call_kwargs["self"]))
         if cls:
             call_kwargs["self"] = real_function(cls)(call_kwargs["self"])     # tuple-modelled object -> the real object
+    if getattr(c, "rt_wrap", None):
+        call_kwargs = c.rt_wrap(dict(call_kwargs))
+        for key, expr in (getattr(c, "attrs", None) or {}).items():      # the assumed object facts, checked on the real object
+            pn, an = key.split(".")
+            try:
+                got = getattr(call_kwargs[pn], an)
+                if not _eq(got, evaluate(expr, env)):
+                    return Outcome("fail", "attrs:%s" % key, "assumed fact about the object is false", observed=repr(got))
+            except Exception as e:
+                return Outcome("fail", "attrs:%s" % key, "exception: %r" % (e,))
     try:
         result = fn(**call_kwargs)
     except Exception as e:
